@@ -32,10 +32,28 @@ import (
 )
 
 const (
-	repoDir  = "/repo"
 	verifDir = "/verif"
 	goRoot   = "/opt/veriftools/go1.26.8"
 )
+
+// repoDir is /repo. VERIF_DEV_REPO points the driver at another tree (a
+// scratch worktree with a seeded change applied) while the machinery is being
+// developed; evidence of such a run goes to .cache/dev-evidence, never to
+// /verif/evidence, and no registered command sets the variable.
+var (
+	repoDir     = "/repo"
+	evidenceDir = filepath.Join(verifDir, "evidence")
+	replaysDir  = filepath.Join(verifDir, "replays")
+)
+
+func init() {
+	if d := os.Getenv("VERIF_DEV_REPO"); d != "" {
+		repoDir = d
+		evidenceDir = filepath.Join(verifDir, ".cache", "dev-evidence")
+		replaysDir = filepath.Join(verifDir, ".cache", "dev-replays")
+		fmt.Fprintf(os.Stderr, "check: DEVELOPMENT RUN against %s (evidence goes to %s)\n", d, evidenceDir)
+	}
+}
 
 func die(code int, format string, args ...any) {
 	fmt.Fprintf(os.Stderr, "check: "+format+"\n", args...)
@@ -550,7 +568,7 @@ func runCheck(id, tier string) int {
 		die(2, "%v", err)
 	}
 	defer os.RemoveAll(tmpDir)
-	replayDir := filepath.Join(verifDir, "replays")
+	replayDir := replaysDir
 	os.MkdirAll(replayDir, 0o755)
 
 	// 1. fixed probes for known findings
@@ -778,9 +796,9 @@ func runCheck(id, tier string) int {
 		"wall_s":      wall,
 		"violations":  nviol,
 	}
-	os.MkdirAll(filepath.Join(verifDir, "evidence"), 0o755)
+	os.MkdirAll(evidenceDir, 0o755)
 	b, _ := json.MarshalIndent(ev, "", " ")
-	if err := os.WriteFile(filepath.Join(verifDir, "evidence", id+".json"), b, 0o644); err != nil {
+	if err := os.WriteFile(filepath.Join(evidenceDir, id+".json"), b, 0o644); err != nil {
 		die(2, "evidence: %v", err)
 	}
 	fmt.Printf("check: %s %s: runs=%d nontrivial=%d distinct=%d discards=%v violations=%d wall=%.1fs\n", id, tier, merged.Runs, merged.Nontrivial, len(distinct), merged.Discards, nviol, wall)
